@@ -76,6 +76,10 @@ CLAIMS = {
    text='Partial: (1) no writable static storage / hidden-state libc call - outputs cannot depend on other objects or earlier unrelated calls through globals (the C14 obligations re-evaluated); (2) every init function clears the whole object, with the size query applied to its own arguments, before any other access; (3) no pointer field of any record embedded in a codec state is ever assigned an address derived from the state itself, so a memcpy clone does not alias the original; (4) size query = end of the carve-up used by init (linear normal form) for the Opus encoder/decoder; (5) every reset handler clears exactly from its marker to the end, with the same total as init (size-query arguments must be init-only fields); (6) init and reset agree on every re-derived field; (7) no user setting lies in the cleared region, and every out-of-region field the codec writes and can read across calls (path-sensitive must-define analysis, partitioned by coding mode) is re-established by reset, is a setting, or is a listed exception whose guard is re-checked on every run. Two genuine reset residues found by (7) were repaired. Equality of the outputs of twin objects is NOT decided (run-time).',
    note=TRUST + 'spec/c12_reset_exceptions.json lists 6 reasoned exceptions, each with a machine-checked guard.',
    technique='whole-program may-point-to (shared with C14) + dominance / must-define dataflow partitioned by coding mode + linear normal forms of size expressions + sibling agreement init/reset + offset reasoning on record layouts'),
+ 'C02': dict(category='other',
+   text='Partial (lock-step skeleton): in every `if (encode) .. else ..` of the shared CELT band/rate code both arms issue the same entropy-coder operations with the same model parameters; 18 encoder/decoder function pairs (SILK indices, pulses, shell, signs, stereo; CELT coarse/fine/final energy, tf, Laplace, PVQ pulses; CELT and SILK frame headers; hybrid redundancy signalling) issue the same ordered list of distinct coder events (kind, resolved table set, constants), and every SILK index field is coded with the same model on both sides; both sides publish coder.rng ^ redundant_rng and 0 on every TOC-only / tiny-payload path (must-reach dataflow on the field); no encoder-side error is dropped (prefill-into-dummy calls are the reasoned exception); every TOC is generated from the frame size being coded. That every packet decodes to the encoder\'s final range, packet validity for all inputs, absence of internal errors, and conformance of code shared by both sides are NOT decided.',
+   note=TRUST + 'A change made consistently to code shared by encoder and decoder (e.g. the allocation arithmetic in celt/rate.c) is invisible to these rules; tables are covered by C03.',
+   technique='sibling agreement of entropy-coder event sequences (points-to resolved tables) + control-dependence regions + must-reach dataflow on a state field + unchecked-error rule'),
 }
 
 NA_REASON = {
